@@ -18,6 +18,7 @@ witness (section "What the converter drops or alters"), so the list of drops
 is explicit.
 -/
 import DropshotProofs.Lemmas.J2Oas
+import DropshotProofs.Lemmas.RefSiblings
 
 namespace Dropshot.C08
 open Dropshot.Schema
@@ -294,6 +295,71 @@ theorem drops_annotations_beside_ref :
     j2oas (some "N") (.obj (some { description := some "d" }) none none none none .none none none .none .none
       (some "A") [("nullable", .bool true), ("x-k", .num 1)])
     = .ok (.ref "A") := rfl
+
+/-! ### References with something beside them, and schemars' `RemoveRefSiblings`
+
+`j2oas` returns a reference as it is, whatever stands beside it
+(`beside_ref_dropped`, for every such object).  Every definition dropshot
+publishes therefore has to go through schemars' `RemoveRefSiblings` visitor
+first (`JS.rrs`), after which a reference that had company has become the last
+member of an `allOf` and the company is converted as usual
+(`ref_with_annotations_kept`): this is the shape of a documented newtype around
+another named type, `/// doc` `struct DiskName(Name)`.  Definitions reached only
+through a parameter or a response header skipped the visitor until repair
+`6e97a32`; the `da` lines `param_*` / `header_*` observe the published
+components, the `rv` stream compares `JS.rrs` with the visitor itself. -/
+
+/-- Whatever stands beside a reference, the converter returns the bare reference. -/
+theorem beside_ref_dropped (n : Option String) (md : Option Meta) (ty fmt en cv subs num str arr ob)
+    (r : String) (ext : List (String × J)) :
+    j2oas n (.obj md ty fmt en cv subs num str arr ob (some r) ext) = .ok (.ref r) := by
+  simp [j2oas]
+
+/-- A bare reference is left alone by the visitor. -/
+theorem rrs_bare_ref (r : String) : (JS.newRef r).rrs = JS.newRef r := by
+  simp [JS.newRef, JS.rrs, JSSubs.rrs, JSArr.rrs, JSObjV.rrs, restIsDefault]
+
+/-- **Annotations beside a reference survive visitor + conversion.**  A schema that
+is a reference with metadata and/or extensions beside it (and nothing else)
+is published as `allOf: [that reference]` carrying exactly the schema data the
+converter builds for any other schema from the same metadata and extensions -
+description, title, default, deprecated, read/write-only, example, nullable
+and `x-` extensions (`mkData`). -/
+theorem ref_with_annotations_kept (n : Option String) (md : Option Meta) (r : String)
+    (ext : List (String × J)) (h : md.isSome = true ∨ ext ≠ []) :
+    j2oas n (JS.rrs (.obj md none none none none .none none none .none .none (some r) ext))
+      = .ok (.item (.mk (mkData n md ext) (.allOf (.cons (.ref r) .nil)))) := by
+  have hd : restIsDefault md none none none none .none none none .none .none ext = false := by
+    rcases h with h | h
+    · cases md <;> simp_all [restIsDefault]
+    · cases ext <;> simp_all [restIsDefault]
+  simp [JS.rrs, JSSubs.rrs, JSArr.rrs, JSObjV.rrs, hd, JSSubs.pushAllOf, JS.newRef, j2oas, tyArm,
+    j2oasSubschemas, j2oasList]
+
+/-- **After the visitor no reference has company**, anywhere in the schema, at any
+depth: the converter's reference arm has nothing to drop in a visited schema. -/
+theorem visited_refs_stand_alone (s : JS) : s.rrs.refsAlone = true := JS.rrs_refsAlone s
+
+/-- What "stands alone" means at an object: it is exactly `Schema::new_ref`. -/
+theorem ref_alone_is_new_ref (md : Option Meta) (ty fmt en cv subs num str arr ob) (r : String)
+    (ext : List (String × J))
+    (h : (JS.obj md ty fmt en cv subs num str arr ob (some r) ext).refsAlone = true) :
+    JS.obj md ty fmt en cv subs num str arr ob (some r) ext = JS.newRef r := by
+  simp only [JS.refsAlone, Option.isNone_some, Bool.false_or, Bool.and_eq_true] at h
+  obtain ⟨_, hd⟩ := h
+  simp only [restIsDefault, Bool.and_eq_true, Option.isNone_iff_eq_none, List.isEmpty_iff] at hd
+  obtain ⟨⟨⟨⟨⟨⟨⟨⟨⟨⟨h1, h2⟩, h3⟩, h4⟩, h5⟩, h6⟩, h7⟩, h8⟩, h9⟩, h10⟩, h11⟩ := hd
+  subst h1 h2 h3 h4 h5 h7 h8 h11
+  cases subs <;> cases arr <;> cases ob <;> simp_all [JS.newRef]
+
+/-- The same definition converted without the visitor: the description is gone. -/
+theorem ref_with_annotations_lost_without_visitor :
+    j2oas none (.obj (some { description := some "The name of a disk." }) none none none none .none none none
+      .none .none (some "Name") []) = .ok (.ref "Name") ∧
+    j2oas none (JS.rrs (.obj (some { description := some "The name of a disk." }) none none none none .none none
+      none .none .none (some "Name") []))
+      = .ok (.item (.mk { description := some "The name of a disk." } (.allOf (.cons (.ref "Name") .nil)))) :=
+  ⟨rfl, rfl⟩
 
 /-- the `name` argument replaces the schema's own title. -/
 theorem name_overrides_title :
